@@ -153,12 +153,23 @@ def star_args_bound_whole(ctx: Ctx, rule: str) -> int:
             continue
         idx_var, _name = _loop_vars(loop)
         pos = f.positional_params()[1] if len(f.positional_params()) > 1 else None
-        accepted = None
-        for c in ast.walk(loop):
-            if isinstance(c, ast.Compare) and len(c.ops) == 1 and isinstance(c.ops[0], (ast.NotIn, ast.In)) and isinstance(c.comparators[0], (ast.Tuple, ast.List, ast.Set)) \
-                    and isinstance(c.left, ast.Attribute) and c.left.attr == "kind":
-                accepted = {x.attr for x in c.comparators[0].elts if isinstance(x, ast.Attribute)}
-                break
+        # the kinds the binder lets through: the tuple of `Parameter.<KIND>` it tests the parameter's kind against - written in the test, held in a local or a
+        # module constant, or handed to a checking helper
+        def kind_sets(nodes) -> List[set]:
+            out = []
+            for y in nodes:
+                if isinstance(y, (ast.Tuple, ast.List, ast.Set)) and y.elts and all(isinstance(e, ast.Attribute) and unparse(e.value).split(".")[-1] == "Parameter" for e in y.elts):
+                    out.append({e.attr for e in y.elts})
+            return out
+        sets_ = kind_sets(f.own_nodes())
+        for y in f.own_nodes():
+            if isinstance(y, ast.Name) and isinstance(y.ctx, ast.Load) and not prog.is_local(f, y.id):
+                for st_ in f.module.assigns.get(y.id, []):
+                    v_ = getattr(st_, "value", None)
+                    if v_ is not None:
+                        sets_ += kind_sets(ast.walk(v_))
+        sets_ = [s_ for s_ in sets_ if "POSITIONAL_OR_KEYWORD" in s_]
+        accepted = set().union(*sets_) if sets_ else None
         if accepted is None:
             continue
         n += 1
@@ -189,14 +200,27 @@ def pair_values_rule(ctx: Ctx, rule: str) -> int:
     from .roles import composer as _role_composer
     comp_f = _role_composer(ctx)
     n = 0
+    class _G:  # a comprehension generator or a `for` statement over <mapping>.items()
+        def __init__(self, target, it):
+            self.target, self.iter = target, it
+    sites = []
     for x in comp_f.own_nodes():
-        if not (isinstance(x, (ast.ListComp, ast.GeneratorExp)) and isinstance(x.elt, ast.Tuple) and len(x.elt.elts) == 2 and len(x.generators) == 1):
-            continue
-        g = x.generators[0]
+        if isinstance(x, (ast.ListComp, ast.GeneratorExp)) and isinstance(x.elt, ast.Tuple) and len(x.elt.elts) == 2 and len(x.generators) == 1:
+            sites.append((x.generators[0], x.elt))
+        elif isinstance(x, ast.For):
+            # the loop form: `for (k, v) in m.items(): pairs.append((key, value))`
+            for y in ast.walk(ast.Module(body=x.body, type_ignores=[])):
+                if isinstance(y, ast.Call) and isinstance(y.func, ast.Attribute) and y.func.attr == "append" and y.args and isinstance(y.args[0], ast.Tuple) and len(y.args[0].elts) == 2:
+                    sites.append((_G(x.target, x.iter), y.args[0]))
+    for g, elt_ in sites:
         if not (isinstance(g.target, ast.Tuple) and len(g.target.elts) == 2 and all(isinstance(t, ast.Name) for t in g.target.elts)
                 and isinstance(g.iter, ast.Call) and isinstance(g.iter.func, ast.Attribute) and g.iter.func.attr == "items"):
             continue
         kv, vv = g.target.elts[0].id, g.target.elts[1].id
+
+        class _X:
+            elt = elt_
+        x = _X()
         n += 1
         val_names = {y.id for y in ast.walk(x.elt.elts[1]) if isinstance(y, ast.Name)}
         desc = f"pair value `{unparse(x.elt.elts[1], 40)}` of the entries of `{unparse(g.iter.func.value, 30)}` depends on the mapping's value `{vv}`"
@@ -550,6 +574,11 @@ def _site(ctx: Ctx, g: Func, call: ast.Call, arg: ast.AST) -> None:
         gen = arg.generators[0]
         it_kind, _b = _classify(gen.iter)
         helpers = set(g.nested) | (set(g.parent.nested) if getattr(g, "parent", None) is not None else set())
+        if isinstance(arg.elt, ast.Call) and isinstance(arg.elt.func, ast.Name):
+            # ... or a helper of the binders' module (it has its own hashing site, judged there)
+            fs_, _ = ctx.prog.callees(g, arg.elt, ctx._types)
+            if fs_ and all(h_.module is g.module for h_ in fs_):
+                helpers.add(arg.elt.func.id)
         if it_kind == "positional" and isinstance(gen.iter, ast.Subscript) and isinstance(gen.iter.slice, ast.Slice) and isinstance(arg.elt, ast.Call) \
                 and isinstance(arg.elt.func, ast.Name) and arg.elt.func.id in helpers and len(arg.elt.args) == 1 and isinstance(arg.elt.args[0], ast.Name) \
                 and arg.elt.args[0].id == gen.target.id:
